@@ -384,6 +384,9 @@ static inline std::string strOf(size_t n, char c)
 
 static inline void cm(W& w, int prior, const size_t slen[4], size_t vlen)
 {
+    const bool nullViews = prior >= 40;   // prior + 40: empty strings are passed as default-constructed (null) string_views
+    if (nullViews)
+        prior -= 40;
     using T = A::CaptureModulePayload;
     auto hdr = [](T& p) {
         p.setUptime(0x0102030405060708ull); p.setGmIdentity(0x1112131415161718ull); p.setGmClockQuality(0x21222324); p.setCurrentUtcOffset(0x3132); p.setTimeSource(0x41);
@@ -428,8 +431,13 @@ static inline void cm(W& w, int prior, const size_t slen[4], size_t vlen)
         at[i] = text.size();
         text += s[i] + "/&";
     }
-    C13_FINAL(p.setData(std::string_view(text.data() + at[0], s[0].size()), std::string_view(text.data() + at[1], s[1].size()), std::string_view(text.data() + at[2], s[2].size()),
-                        std::string_view(text.data() + at[3], s[3].size()), v));
+    // an EMPTY string is handed over as a view into the text (non-null data, length 0) or - variant nullViews - as a default-constructed
+    // string_view, whose data() is null: both mean "the empty string"
+    auto view = [&](int i) { return s[i].empty() && nullViews ? std::string_view{} : std::string_view(text.data() + at[i], s[i].size()); };
+    if (nullViews && v.empty())
+        C13_FINAL(p.setData(view(0), view(1), view(2), view(3), {}));
+    else
+        C13_FINAL(p.setData(view(0), view(1), view(2), view(3), v));
     w.add(mc::C_TRANS, 2);
     std::string k = "CaptureModulePayload";
     std::string_view got[4] = {p.getDeviceDescription(), p.getSerialNumber(), p.getHardwareVersion(), p.getSoftwareVersion()};
@@ -618,8 +626,20 @@ static int runC13(mc::Run& run, const mc::Options& opt)
         return run.run_single(cs);
     }
     std::vector<std::string> cases;
-    for (int prior : {0, 1, 2, 3, 11, 12, 13, 20, 21, 22, 33})
+    for (int prior : {0, 1, 2, 3, 11, 12, 13, 20, 21, 22, 33, 41, 42, 52, 62})
     {
+        if (prior >= 40)
+        {
+            // capture-module builder only: empty strings as null views over prior contents
+            for (int a = 0; a < 5; ++a)
+                for (int b = 0; b < 5; ++b)
+                    for (int c = 0; c < 5; ++c)
+                        for (int d = 0; d < 5; ++d)
+                            if (!a || !b || !c || !d)
+                                for (size_t v = 0; v < 2; ++v)
+                                    cases.push_back(ofmt("cls=cm;prior=%d;s=%d,%d,%d,%d;v=%zu", prior, a, b, c, d, v));
+            continue;
+        }
         for (size_t len = 0; len <= 255; ++len)
         {
             cases.push_back(ofmt("cls=lin;prior=%d;len=%zu", prior, len));
